@@ -97,6 +97,10 @@ def run_cases(ctx, exe, orac, cases, prop, label):
         for tid, ev, prog, lines, src in traces:
             r = out.get(tid)
             ctx.count("model:events", len(ev))
+            nemp = sum(1 for e in ev if " getempty " in e)
+            if nemp:
+                ctx.count("model:traces-with-frame-calls-that-return-no-frame")
+                ctx.count("model:empty-frame-call-events", nemp)
             nref = sum(1 for e in ev if "startrefused" in e)
             if nref:
                 ctx.count("model:traces-with-a-refused-start (running / failed device)")
